@@ -43,3 +43,15 @@ pub proof fn lemma_seen_push(s: Seq<String>, x: String)
     assert(s.push(x).map_values(f) =~= s.map_values(f).push(x@));
     s.map_values(f).lemma_push_to_set_commute(x@);
 }
+// T7: #[derive(Default)] on SDJWTCommon
+impl Default for SDJWTCommon {
+    #[verifier::external_body]
+    fn default() -> (r: Self)
+        ensures r.typ is None, r.serialization_format == SDJWTSerializationFormat::JSON,
+            r.unverified_input_key_binding_jwt is None, r.unverified_sd_jwt is None, r.unverified_sd_jwt_json is None,
+            r.unverified_input_sd_jwt_payload is None,
+            r.hash_to_decoded_disclosure@ == vstd::map::Map::<Seq<char>, Value>::empty(),
+            r.hash_to_disclosure@ == vstd::map::Map::<Seq<char>, String>::empty(),
+            r.input_disclosures@.len() == 0, r.sign_alg is None,
+    { unimplemented!() }
+}
